@@ -216,3 +216,14 @@ PROPS["C09"] = {
              {"name": "grid-asan", "src": "h_param.c", "variant": "asan", "args": ["--mode", "grid"], "tiers": ("thorough",)}],
     "budget": {"quick": 600, "thorough": 3600},
 }
+
+PROPS["C12"] = {
+    "level": "model_checking",
+    "claim": "a catalogue of 12 session scripts (RS-2^8 encoder / matrix decoder, RS-2^m m=4 SAS decoder, m=8 encoder, LDPC encoder, LDPC decoder ending in ML decoding that consumes rand(), LDPC even-N1 DWS decoder, two rejected LDPC configurations, 2D encoder, verbose sessions): for every unordered pair (a script with itself included) ALL interleavings of the two call sequences, for every triple all interleavings with at most 3 (quick) / 5 (thorough) context switches; rand() is a global-counter generator; every session's observation trace (statuses, completion, control answers, bytes of built and decoded symbols) must equal the trace of the same script alone in a pristine forked process",
+    "technique": "exhaustive enumeration of all interleavings (pairs) / context-switch-bounded interleavings (triples) of session call sequences on the real library, compared with stand-alone runs",
+    "rule": "one execution = one interleaving schedule; states = script combinations, transitions = API calls executed",
+    "bounds": {"quick": "78 pairs x all interleavings (up to C(15,7)); 352 triples x <=3 switches", "thorough": "78 pairs; 364 triples x <=5 switches; also under ASan"},
+    "assumptions": ["scripts are fixed (listed in harness/h_indep.c); stdout/stderr text is not an observation", "leftover global state of earlier executions in the same worker is itself part of the 'other sessions' history"],
+    "runs": [{"name": "indep-trk", "src": "h_indep.c", "variant": "trk"},
+             {"name": "indep-asan", "src": "h_indep.c", "variant": "asan", "tiers": ("thorough",)}],
+}
